@@ -350,6 +350,9 @@ func stringSpaces(thorough bool) []fspace {
 			refs := capitalizeRefs(s)
 			for _, r := range refs {
 				if got == r {
+					if !utf8.ValidString(s) && strings.Count(got, "\uFFFD") > strings.Count(s, "\uFFFD") {
+						return ok(cls+",invalid-byte-rewritten-to-U+FFFD", true)
+					}
 					return ok(cls, got != s)
 				}
 			}
@@ -367,6 +370,9 @@ func stringSpaces(thorough bool) []fspace {
 			r1, r2 := capitalizeAllRef(s, false), capitalizeAllRef(s, true)
 			if gn != r1 && gn != r2 {
 				return bad("not-s-with-the-first-letter-of-each-word-in-upper-case", "input %s\nexpected %s or %s (invalid bytes may be U+FFFD)\nobserved %s", in, q(r1), q(r2), q(got))
+			}
+			if got != s && !utf8.ValidString(s) && strings.Count(got, "\uFFFD") > strings.Count(s, "\uFFFD") {
+				return ok("capitalized,invalid-bytes-rewritten-to-U+FFFD", true)
 			}
 			return ok("capitalized", gn != string([]rune(s)))
 		}))
